@@ -371,6 +371,29 @@ def formatTimeUnits (c : CalOps) (calendar units : Str) : Option Str :=
 for every lawful calendar in `Props/C17.lean`) -/
 def formatTimeUnitsChecked : CalOps → Str → Str → Option Str := formatWith pad4 formatOffset
 
+/-! ## specification predicates used by the theorems -/
+
+/-- `<unit> since YYYY-MM-DD HH:MM:SS ±HH:MM`: fixed-width zero-padded fields, explicit sign,
+two-digit hours. -/
+def EmsForm (p out : Str) : Prop :=
+  ∃ y1 y2 y3 y4 m1 m2 d1 d2 h1 h2 n1 n2 s1 s2 sg o1 o2 o3 o4 : Char,
+    out = p ++ ' ' :: 's' :: 'i' :: 'n' :: 'c' :: 'e' :: ' ' ::
+      [y1, y2, y3, y4, '-', m1, m2, '-', d1, d2, ' ', h1, h2, ':', n1, n2, ':', s1, s2, ' ', sg, o1, o2, ':', o3, o4] ∧
+    (∀ ch ∈ [y1, y2, y3, y4, m1, m2, d1, d2, h1, h2, n1, n2, s1, s2, o1, o2, o3, o4], isDig ch = true) ∧
+    (sg = '+' ∨ sg = '-')
+
+
+/-- The inputs the property quantifies over: a supported unit and calendar, a real date and time
+of day, an offset below 24 h, no sub-second part, and a UTC instant that Python can represent. -/
+structure ValidInput (c : CalOps) (k : CalKind) (p : Str) (b : Bits) : Prop where
+  unit : p ∈ allowedUnits
+  valid : c.valid b.f = true
+  off : b.off.natAbs < 1440
+  micro : b.micro = false
+  lo : c.toSec firstFields ≤ c.toSec b.f - 60 * b.off
+  hi : c.toSec b.f - 60 * b.off ≤ c.toSec lastFields
+  py : pythonDate k (c.ofSec (c.toSec b.f - 60 * b.off)) = true
+
 /-! ## decoding a stored number -/
 
 /-- length of one unit in microseconds (`cftime` unit names) -/
